@@ -85,6 +85,66 @@ fn bounds(tier: Tier) -> B {
     }
 }
 
+// ---------------------------------------------------------------- generated families (thorough tier)
+
+fn multisets(k: usize, n: usize) -> Vec<Vec<usize>> {
+    // all non-decreasing index sequences of length n over 0..k
+    fn rec(k: usize, n: usize, start: usize, cur: &mut Vec<usize>, out: &mut Vec<Vec<usize>>) {
+        if cur.len() == n {
+            out.push(cur.clone());
+            return;
+        }
+        for i in start..k {
+            cur.push(i);
+            rec(k, n, i, cur, out);
+            cur.pop();
+        }
+    }
+    let mut out = Vec::new();
+    rec(k, n, 0, &mut Vec::new(), &mut out);
+    out
+}
+
+fn base_scripts() -> Vec<(&'static str, Vec<Op>)> {
+    vec![
+        ("GR", vec![get(), Op::Release]),
+        ("GT", vec![get(), Op::Take]),
+        ("NR", vec![get_nb(), Op::Release]),
+        ("RT", vec![Op::Retain]),
+        ("ST", vec![Op::Status]),
+        ("GGRR", vec![get(), get_nb(), Op::Release, Op::Release]),
+    ]
+}
+
+/// Every assignment (modulo actor renaming) of scripts from the alphabet to
+/// `n` actors, optionally with one fixed extra actor, on a few pool shapes.
+fn generated(base: &[&'static str], fixed: Option<(&'static str, Vec<Op>)>, n: usize, p: u32, f: u32, with_faults: bool) -> Vec<Scenario> {
+    let scripts = base_scripts();
+    let mut v = Vec::new();
+    for combo in multisets(scripts.len(), n) {
+        // skip assignments in which nobody ever takes an object out
+        if combo.iter().all(|i| matches!(scripts[*i].0, "RT" | "ST")) {
+            continue;
+        }
+        for (ms, prefill) in [(1usize, 0usize), (2, 1)] {
+            let mut cfg = if with_faults { faulty_cfg(ms) } else { PoolCfg::simple(ms) };
+            if !with_faults {
+                cfg.create_menu = vec![Out::Ok, Out::PendOk, Out::Err];
+            }
+            let mut actors: Vec<Vec<Op>> = combo.iter().map(|i| scripts[*i].1.clone()).collect();
+            let mut name = combo.iter().map(|i| scripts[*i].0).collect::<Vec<_>>().join("+");
+            if let Some((fname, fs)) = &fixed {
+                actors.push(fs.clone());
+                name = format!("{}+{}", name, fname);
+            }
+            let mut sc = ConcScenario::new(cfg, actors, base);
+            sc.prefill = prefill;
+            v.push(conc_paid(&format!("gen/{}/ms{}", name, ms), "generated: every assignment of the script alphabet {get+return, get+take, nonblocking get+return, retain, status, two gets} to the actors (modulo renaming)", p, f, sc));
+        }
+    }
+    v
+}
+
 // ---------------------------------------------------------------- C01 / C02
 
 pub fn conc_core(tier: Tier, base: &[&'static str]) -> Vec<Scenario> {
@@ -134,6 +194,8 @@ pub fn conc_core(tier: Tier, base: &[&'static str]) -> Vec<Scenario> {
         let mut sc = ConcScenario::new(c, vec![vec![get(), Op::Release, get(), Op::Release], vec![get(), Op::Release]], base);
         sc.prefill = 1;
         v.push(conc("lifo-two-rounds/ms1", "Lifo pool, one actor goes around twice", 2, 2, sc));
+        v.extend(generated(base, None, 3, 2, 1, true));
+        v.extend(generated(base, None, 2, 3, 2, true));
     }
     v
 }
@@ -277,6 +339,10 @@ pub fn c06_scenarios(tier: Tier) -> Vec<Scenario> {
         sc.prefill = ms.min(1);
         v.push(seq(&format!("close-histories/ms{}", ms), "close() at every position of every history of gets, polls, returns, takes, cancels and resize", if b.thorough { 2 } else { 1 }, sc));
     }
+    if b.thorough {
+        v.extend(generated(base, Some(("CLOSE", vec![Op::Close])), 2, 2, 1, false));
+        v.extend(generated(base, Some(("CLOSE+GET", vec![Op::Close, get_nb(), Op::Status])), 2, 2, 0, false));
+    }
     v
 }
 
@@ -321,6 +387,13 @@ pub fn c07_scenarios(tier: Tier) -> Vec<Scenario> {
     v.push(conc_paid("shrink-grow-vs-getters/ms2", "shrink then grow while two getters run", if b.thorough { 3 } else { 2 }, 0, sc.clone()));
     let sc3 = ConcScenario::new(PoolCfg::simple(2), vec![vec![Op::Resize(1)], vec![Op::Resize(3)], vec![get(), Op::Release]], base);
     v.push(conc_paid("resize-vs-resize/ms2", "two concurrent resizes and a getter", if b.thorough { 3 } else { 2 }, 0, sc3));
+    if b.thorough {
+        for n in [0usize, 1, 3] {
+            let name: &'static str = ["RESIZE0", "RESIZE1", "", "RESIZE3"][n];
+            v.extend(generated(base, Some((name, vec![Op::Resize(n)])), 2, 2, 1, false));
+        }
+        v.extend(generated(base, Some(("SHRINK-GROW", vec![Op::Resize(0), Op::Resize(2)])), 2, 2, 0, false));
+    }
     v
 }
 
@@ -375,6 +448,9 @@ pub fn c09_scenarios(tier: Tier) -> Vec<Scenario> {
     v.push(conc("retain-vs-take/ms2", "retain racing with get + take", p, f, sc.clone()));
     sc.actors = vec![vec![Op::Retain, Op::Retain], vec![get(), Op::Release, get(), Op::Take]];
     v.push(conc("retain-twice-vs-get-take/ms2", "two retains racing with return and take", if b.thorough { 3 } else { 2 }, f, sc));
+    if b.thorough {
+        v.extend(generated(base, Some(("RETAIN", vec![Op::Retain])), 2, 2, 0, false));
+    }
     v
 }
 
